@@ -106,14 +106,20 @@ class _Rename(ast.NodeTransformer):
 
 
 def _simple(e) -> bool:
+    if isinstance(e, ast.Tuple):
+        return all(_simple(x) for x in e.elts)
+    if isinstance(e, ast.Dict):
+        return all(k is not None and _simple(k) for k in e.keys) and all(_simple(v) for v in e.values)
     while isinstance(e, ast.Attribute):
         e = e.value
     return isinstance(e, (ast.Name, ast.Constant))
 
 
 def _bind(fn: ast.FunctionDef, call: ast.Call, skip_first: bool):
+    """parameter -> argument expression, or None.  `*args` is bound to the tuple of the surplus positional arguments and `**kwargs`
+    to the dict of the surplus keywords (both substituted as literals, so that `f(*args, **kwargs)` in the body reads `f(a, k=v)`)."""
     a = fn.args
-    if a.vararg or a.kwarg or a.posonlyargs:
+    if a.posonlyargs:
         return None
     params = [p.arg for p in a.args][(1 if skip_first else 0):]
     defaults = dict(zip([p.arg for p in a.args][len(a.args) - len(a.defaults):], a.defaults))
@@ -121,25 +127,37 @@ def _bind(fn: ast.FunctionDef, call: ast.Call, skip_first: bool):
         if d is not None:
             defaults[p.arg] = d
     allp = params + [p.arg for p in a.kwonlyargs]
-    if any(isinstance(x, ast.Starred) for x in call.args) or any(k.arg is None for k in call.keywords) or len(call.args) > len(params):
+    if any(isinstance(x, ast.Starred) for x in call.args) or any(k.arg is None for k in call.keywords):
+        return None
+    if len(call.args) > len(params) and not a.vararg:
         return None
     m = {}
     for p, v in zip(params, call.args):
         m[p] = v
+    extra_kw = []
     for k in call.keywords:
-        if k.arg not in allp or k.arg in m:
+        if k.arg in m:
             return None
+        if k.arg not in allp:
+            if not a.kwarg:
+                return None
+            extra_kw.append(k)
+            continue
         m[k.arg] = k.value
     for p in allp:
         if p not in m:
             if p not in defaults:
                 return None
             m[p] = defaults[p]
+    if a.vararg:
+        m[a.vararg.arg] = ast.Tuple(elts=list(call.args[len(params):]), ctx=ast.Load())
+    if a.kwarg:
+        m[a.kwarg.arg] = ast.Dict(keys=[ast.Constant(value=k.arg) for k in extra_kw], values=[k.value for k in extra_kw])
     return m
 
 
 def _eligible(fn: ast.FunctionDef) -> bool:
-    if any(not (isinstance(d, ast.Name) and d.id in ("staticmethod",)) for d in fn.decorator_list):
+    if any(not (isinstance(d, ast.Name) and d.id in ("staticmethod", "classmethod")) for d in fn.decorator_list):
         return False
     body_nodes = [x for st in fn.body for x in ast.walk(st)]
     if any(isinstance(x, (ast.Yield, ast.YieldFrom, ast.Await, ast.Global, ast.Nonlocal)) for x in body_nodes):
@@ -158,7 +176,7 @@ def expand_module(tree: ast.Module, modname: str) -> int:
     mod_helpers = {f.name: f for f in tree.body if isinstance(f, ast.FunctionDef) and f.name.startswith("_") and not f.name.startswith("__")
                    and f"{modname}:{f.name}" not in known and _eligible(f)}
 
-    def expand_function(fn: ast.FunctionDef, qual: str, cls_helpers: Dict[str, ast.FunctionDef]):
+    def expand_function(fn: ast.FunctionDef, qual: str, cls_helpers: Dict[str, ast.FunctionDef], cls_name: str = ""):
         # nested defs of this function that are new
         nested = {}
         for st in fn.body:
@@ -173,12 +191,17 @@ def expand_module(tree: ast.Module, modname: str) -> int:
                     return nested[f.id], False
                 if f.id in mod_helpers and f.id != fn.name:
                     return mod_helpers[f.id], False
-            if isinstance(f, ast.Attribute) and isinstance(f.value, ast.Name) and f.value.id in ("self", "cls") and f.attr in cls_helpers \
+            if isinstance(f, ast.Attribute) and isinstance(f.value, ast.Name) and f.value.id in ("self", "cls", cls_name) and f.attr in cls_helpers \
                     and f.attr != fn.name:
                 h = cls_helpers[f.attr]
                 static = any(isinstance(d, ast.Name) and d.id == "staticmethod" for d in h.decorator_list)
+                clsm = any(isinstance(d, ast.Name) and d.id == "classmethod" for d in h.decorator_list)
                 if static:
                     return h, False
+                if f.value.id == cls_name:
+                    return None, False          # Class.method(obj, ...) / Class.classmethod(...): not read at the call site
+                if clsm != (f.value.id == "cls"):
+                    return None, False          # a classmethod reached through self (cls would be type(self)), or a method through cls
                 if h.args.args and h.args.args[0].arg == f.value.id:
                     return h, True
             return None, False
@@ -220,6 +243,48 @@ def expand_module(tree: ast.Module, modname: str) -> int:
                 ast.fix_missing_locations(st)
             return pre + body, retvar
 
+        def hoist_from(expr, st, top_call):
+            hoisted = []
+
+            class _Hoist(ast.NodeTransformer):
+                def _skip(self, node):
+                    return node
+                visit_Lambda = visit_ListComp = visit_SetComp = visit_DictComp = visit_GeneratorExp = _skip
+                visit_IfExp = _skip
+
+                def visit_BoolOp(self, node):
+                    # only the first operand of and/or is evaluated unconditionally
+                    node.values[0] = self.visit(node.values[0])
+                    return node
+
+                def visit_Call(self, node):
+                    self.generic_visit(node)
+                    if node is top_call:
+                        return node
+                    h, skip_ = resolve(node)
+                    if h is None or _bind(h, node, skip_) is None:
+                        return node
+                    body_ = [s_ for s_ in h.body if not (isinstance(s_, ast.Expr) and isinstance(s_.value, ast.Constant))]
+                    if single_exit(copy.deepcopy(body_), "_probe") is None:
+                        return node
+                    counter[0] += 1
+                    nm = f"_arg__h{counter[0]}"
+                    a_ = ast.Assign(targets=[ast.Name(id=nm, ctx=ast.Store())], value=node)
+                    ast.copy_location(a_, st)
+                    ast.fix_missing_locations(a_)
+                    hoisted.append(a_)
+                    return ast.copy_location(ast.Name(id=nm, ctx=ast.Load()), node)
+            expr = _Hoist().visit(expr)
+            pre = []
+            for a_ in hoisted:
+                r = inline_call(a_.value)
+                if r is not None:
+                    stmts_, retvar = r
+                    pre.extend(stmts_)
+                    a_.value = ast.copy_location(ast.Name(id=retvar, ctx=ast.Load()), a_)
+                pre.append(a_)
+            return expr, pre
+
         def block(stmts):
             out = []
             for st in stmts:
@@ -234,42 +299,14 @@ def expand_module(tree: ast.Module, modname: str) -> int:
                 call = None
                 if isinstance(st, (ast.Assign, ast.AnnAssign, ast.AugAssign, ast.Return, ast.Expr)) and isinstance(getattr(st, "value", None), ast.Call):
                     call = st.value
-                # helper calls that are unconditionally evaluated operands of the statement's value, `F(a=h(p), b=h(q))`, are read
-                # as `_arg1 = h(p); _arg2 = h(q); F(a=_arg1, b=_arg2)`
+                # helper calls that are unconditionally evaluated operands of the statement's value (or of an `if` test),
+                # `F(a=h(p), b=h(q))`, are read as `_arg1 = h(p); _arg2 = h(q); F(a=_arg1, b=_arg2)`
                 if isinstance(st, (ast.Assign, ast.AnnAssign, ast.AugAssign, ast.Return, ast.Expr)) and getattr(st, "value", None) is not None:
-                    hoisted = []
-
-                    class _Hoist(ast.NodeTransformer):
-                        def _skip(self, node):
-                            return node
-                        visit_Lambda = visit_ListComp = visit_SetComp = visit_DictComp = visit_GeneratorExp = _skip
-                        visit_IfExp = visit_BoolOp = _skip
-
-                        def visit_Call(self, node):
-                            self.generic_visit(node)
-                            if node is call:
-                                return node
-                            h, _ = resolve(node)
-                            if h is None or _bind(h, node, _) is None:
-                                return node
-                            body_ = [s for s in h.body if not (isinstance(s, ast.Expr) and isinstance(s.value, ast.Constant))]
-                            if single_exit(copy.deepcopy(body_), "_probe") is None:
-                                return node
-                            counter[0] += 1
-                            nm = f"_arg__h{counter[0]}"
-                            a = ast.Assign(targets=[ast.Name(id=nm, ctx=ast.Store())], value=node)
-                            ast.copy_location(a, st)
-                            ast.fix_missing_locations(a)
-                            hoisted.append(a)
-                            return ast.copy_location(ast.Name(id=nm, ctx=ast.Load()), node)
-                    st.value = _Hoist().visit(st.value)
-                    for a in hoisted:
-                        r = inline_call(a.value)
-                        if r is not None:
-                            stmts_, retvar = r
-                            out.extend(stmts_)
-                            a.value = ast.copy_location(ast.Name(id=retvar, ctx=ast.Load()), a)
-                        out.append(a)
+                    st.value, pre_ = hoist_from(st.value, st, call)
+                    out.extend(pre_)
+                elif isinstance(st, ast.If):
+                    st.test, pre_ = hoist_from(st.test, st, None)
+                    out.extend(pre_)
                 if call is not None:
                     r = inline_call(call)
                     if r is not None:
@@ -318,17 +355,17 @@ def expand_module(tree: ast.Module, modname: str) -> int:
                         lambdify(hd.body)
         lambdify(fn.body)
 
-    def walk(body, prefix, cls_helpers):
+    def walk(body, prefix, cls_helpers, cls_name=""):
         for n in body:
             if isinstance(n, ast.FunctionDef):
-                expand_function(n, prefix + n.name, cls_helpers)
+                expand_function(n, prefix + n.name, cls_helpers, cls_name)
             elif isinstance(n, ast.ClassDef):
                 ch = {}
                 for f in n.body:
                     if isinstance(f, ast.FunctionDef) and f.name.startswith("_") and not f.name.startswith("__") \
                             and f"{modname}:{prefix}{n.name}.{f.name}" not in known and _eligible_method(f):
                         ch[f.name] = f
-                walk(n.body, prefix + n.name + ".", ch)
+                walk(n.body, prefix + n.name + ".", ch, n.name)
     for _ in range(3):          # helpers may use helpers
         before = counter[0]
         walk(tree.body, "", {})
@@ -369,6 +406,6 @@ def expand_module(tree: ast.Module, modname: str) -> int:
 
 
 def _eligible_method(fn: ast.FunctionDef) -> bool:
-    if any(not (isinstance(d, ast.Name) and d.id in ("staticmethod",)) for d in fn.decorator_list):
+    if any(not (isinstance(d, ast.Name) and d.id in ("staticmethod", "classmethod")) for d in fn.decorator_list):
         return False
     return _eligible(fn)
